@@ -73,7 +73,10 @@ CLAIMED = {
    text='Proof against a NumPy/msgpack data model (library contracts as axioms): the real _ndarray_to_bytes/_ndarray_from_bytes and the '
         'ext pack/unpack dispatch restore shape, dtype (byte order included) and values of every supported array, jax array and numpy '
         'scalar for every layout; complex scalars and bytes-object arrays round-trip; object arrays are accepted only if every element '
-        'is bytes; structured dtypes never come back as themselves; the four ext codes are distinct and paired. A bounded native sweep '
+        'is bytes; structured dtypes never come back as themselves; the four ext codes are distinct and paired. Checkpoint clause: '
+        'save_state / load_state round trip, path listing, newest-wins and save_checkpoint (the file just written is retained with the '
+        'saved state whenever its round is >= all existing ones, the same round saved again included) under their C09 contracts over '
+        'the FS model. A bounded native sweep '
         '(594 cases: all dtypes x shapes x layouts x byte orders, rejects, nested trees, SQLite builder) cross-checks the axioms.',
    note='Trusted: NumPy dtype/tobytes/frombuffer contracts, msgpack/zlib/pickle/sqlite3 round trips. Bounded only: nested-structure '
         'recursion of msgpack, SQLite builder round trip.'),
@@ -115,7 +118,8 @@ CLAIMED = {
         'aggregators: each of the mutation sites (subscript/attribute stores, in-place operators, mutating methods, next()) is an '
         'obligation "the mutated object was created in this call"; no nonlocal/global rebinding; no global RNG/clock/entropy; '
         'server states are frozen pytree dataclasses; every aggregator stores a key on the split[0] spine of its state key and '
-        'seeds its per-client keys from a split[1] branch above it (symbolic execution of the real apply bodies).',
+        'seeds its per-client keys from a split[1] branch above it (symbolic execution of the real apply bodies); no single-use '
+        'iterator (map / zip / generator object) is stored in a returned state (frame.lazy: reading a state must not change it).',
    note='Trusted: library calls are pure and return fresh objects except listed aliasing accessors; jax arrays immutable; '
         'value-level determinism for FedAvg/FedProx is apply.post/apply.state of C01/C12, the other algorithms rely on OWN + purity; '
         'seeded client hparams needed for determinism (seed=None draws OS entropy).'),
@@ -124,7 +128,8 @@ CLAIMED = {
         'the real fed_prox bodies), its loss is per example loss + 0.5*mu*||w_server - w||^2 anchored at the round server params and equals '
         'the plain loss when mu = 0; the MimeLite client step with sgd is the FedAvg sgd step and its server step is p - lr*mean; the Mime '
         'first local step under sgd is w - eta*c (g - g + c = c); the APFL server_params component is a FedAvg step with key split(rng,3)[1] '
-        'and coefficients stay in [0,1]; link obligations check every jax/jnp call of these functions against the installed library.',
+        'and coefficients stay in [0,1]; link obligations check every jax/jnp call of these functions against the installed library; '
+        'in every builder with a regularizer option each gradient / loss constructor receives it (reg.callsite).',
    note='Trusted: sgd contract, optimizers/grad pure and extensional, for_each_client contract. Bounded native stand-in (not proved): '
         'whole-round equality for HypCluster(1 cluster), MimeLite, Mime. HypCluster differs from FedAvg on an all-empty cohort with a '
         'stateful server optimizer (documented precondition).'),
